@@ -1,6 +1,7 @@
 """C03 — oscillators equal their documented formulas (step-function part)."""
 import ir
-from infra import Report
+import symex
+from infra import Report, Sink
 from rules_spec import run_units
 
 UNITS = ["RelativeStrengthIndex", "FastStochastic", "SlowStochastic", "PercentagePriceOscillator", "CommodityChannelIndex", "OnBalanceVolume",
@@ -119,6 +120,10 @@ def er_facts(F, S):
         S.bad("O4", "er-shape", fn.label, "%s does not return a quotient" % fn.label)
 
 
+RESET_SCOPE = ["RelativeStrengthIndex", "FastStochastic", "SlowStochastic", "RateOfChange", "EfficiencyRatio", "PercentagePriceOscillator", "CommodityChannelIndex",
+               "MoneyFlowIndex", "OnBalanceVolume", "ExponentialMovingAverage", "Minimum", "Maximum", "SimpleMovingAverage", "MeanAbsoluteDeviation"]
+
+
 def run(tier, repo=None, tag="repo"):
     rep = Report("C03", tier)
     rep.rule("O1", "constructor wiring of each oscillator equals the documented construction", 15)
@@ -131,6 +136,24 @@ def run(tier, repo=None, tag="repo"):
         F = ir.load(cfg, repo, tag)
         S_ = run_units("C03", UNITS, None, rep, F, lambda k: RULE.get(k, "O0"))
         er_facts(F, S_)
+    # "evaluated from scratch on the history": the history restarts at reset(), which is only true if reset() restores the constructor state
+    rep.rule("O5", "reset() restores the constructor state of the nine oscillators and of the components they embed (C04's rules), so 'the history' restarts there; no other method writes their state", 14)
+    import rules_c01
+    F0 = ir.load("default", repo, tag)
+    rules_c01.reset_premise(F0, rep, "O5", RESET_SCOPE)
+    # the step-function match is modular: "SMA_n(TP)", "MAD_n(TP)", "low_n", "high_n" in the documented formulas are the window functionals,
+    # and O2 only shows that the oscillators feed and combine their components as documented.  That the windowed components compute those
+    # functionals is C01's I1 / I4 / I6 / I7 (with the ring-lemma premises L0), re-established here on the current tree
+    rep.rule("O6", "the windowed components the formulas name compute their window functionals: SimpleMovingAverage (I1) and MeanAbsoluteDeviation (I4) inside CCI, Minimum (I6) and Maximum (I7) inside the stochastics (C01's rules)", 5)
+    from rules_c09 import _Map
+    from rules_c14 import mirror
+    m_ = _Map(rep, {"I1": "O6", "I4": "O6", "I6": "O6", "I7": "O6", "L0": "O6"})
+    try:
+        rules_c01.apply(F0, m_)
+        rules_c01.extreme_unit(F0, m_, "Minimum", "I6")
+        rules_c01.extreme_unit(F0, m_, "Maximum", "I7", transform=mirror)
+    except (symex.Unsupported, KeyError, IndexError, TypeError, AttributeError) as e:
+        Sink.bad(m_, "O6", "unrecognised", "window-components", "UNRECOGNISED idiom while establishing the window functionals of the components: %r" % (e,))
     rep.configs = configs
     rep.explanation = ("step-function match for RSI, FastStochastic, SlowStochastic, PPO, CCI and OBV against the documented formulas; for RateOfChange and "
                        "MoneyFlowIndex the complete step function *given the ring reads* (which slot is read, what is stored, how totals are adjusted, warm-up "
